@@ -142,6 +142,9 @@ func (t *tr) callWrites(c *ast.CallExpr) []ast.Expr {
 	if fn == nil {
 		return nil
 	}
+	if fn.Pkg() != nil && fn.Pkg().Path() == "encoding/hex" && fn.Name() == "Decode" {
+		return []ast.Expr{c.Args[0]}
+	}
 	sig := fn.Type().(*types.Signature)
 	if sig.Recv() != nil && (isBigLib(sig.Recv().Type()) || isElem(sig.Recv().Type())) {
 		sel := c.Fun.(*ast.SelectorExpr)
@@ -358,6 +361,9 @@ func (t *tr) stmts(list []ast.Stmt, k cont) string {
 			for i, id := range vs.Names {
 				v := t.info.Defs[id].(*types.Var)
 				val := "(default : " + t.varLeanType(v) + ")"
+				if !t.opt[v] {
+					val = zeroValue(v.Type())
+				}
 				if len(vs.Values) > i {
 					val = t.expr(vs.Values[i])
 					if t.opt[v] {
@@ -396,7 +402,14 @@ func (t *tr) stmts(list []ast.Stmt, k cont) string {
 }
 
 func (t *tr) retVal(r ast.Expr, i int) string {
-	return t.expr(r)
+	v := t.expr(r)
+	if t.f.obj != nil {
+		res := t.f.obj.Type().(*types.Signature).Results()
+		if i < res.Len() && isAny(res.At(i).Type()) {
+			return t.toAny(r, v)
+		}
+	}
+	return v
 }
 
 func (t *tr) copyStmt(c *ast.CallExpr) {
@@ -519,6 +532,28 @@ func (t *tr) assign(x *ast.AssignStmt) {
 		return
 	}
 	if len(x.Rhs) == 1 {
+		if ta, ok := x.Rhs[0].(*ast.TypeAssertExpr); ok && len(x.Lhs) == 2 && ta.Type != nil {
+			if !isAny(t.typeOf(ta.X)) {
+				t.fail(x, "type assertion on a non-empty interface")
+			}
+			var fn string
+			switch leanType(t.typeOf(ta.Type)) {
+			case "(List UInt8)":
+				if _, isSl := types.Unalias(t.typeOf(ta.Type)).Underlying().(*types.Slice); !isSl {
+					t.fail(x, "type assertion to an array type")
+				}
+				fn = "I3.Go.Any.asBytes"
+			case "String":
+				fn = "I3.Go.Any.asString"
+			default:
+				t.fail(x, "type assertion to %s", t.typeOf(ta.Type))
+			}
+			v, okv := t.fresh("v"), t.fresh("ok")
+			t.pre = append(t.pre, "let ("+v+", "+okv+") := "+fn+" "+t.expr(ta.X))
+			bind(x.Lhs[0], v, false)
+			bind(x.Lhs[1], okv, false)
+			return
+		}
 		c, ok := x.Rhs[0].(*ast.CallExpr)
 		if !ok {
 			t.fail(x, "unsupported multi-value assignment")
